@@ -30,7 +30,9 @@ func (g *luaGen) name() string      { return g.names[g.r.Intn(len(g.names))] }
 var genNumerals = []string{"0", "1", "42", "007", "3.14", "5.", ".5", "1e10", "2E-3", "1.5e+3", "0x10", "0XfF", "0x.8", "0xA.8p1", "0x1p-2", "0x8P+3",
 	"9223372036854775807", "9223372036854775808", "0xffffffffffffffffff", "12LL", "7ull", "0x1FLL", "3ULL", "1e308", "100ll"}
 var genStrings = []string{`"s"`, `'q'`, `""`, `"a b"`, `"e\n\t\\"`, `'it\'s'`, `"\65\066\x41"`, `"\z   x"`, `"\u{48}\u{7FFFFFFF}"`, `"中文"`, `"tab\ttab"`,
-	"[[long]]", "[==[x]]y]==]", "[[\nnl]]", "[=[a\nb]=]", `"\"q\""`, "'\\\nline'"}
+	"[[long]]", "[==[x]]y]==]", "[[\nnl]]", "[=[a\nb]=]", `"\"q\""`, "'\\\nline'",
+	// every line-break convention inside long brackets and after a backslash: bare CR, CRLF, LFCR
+	"[[a\rb]]", "[==[x\r\ny]==]", "[[\r\rz]]", "[=[p\n\rq\rr]=]", "'\\\rcr'", "\"\\\r\ncrlf\""}
 var binops = []string{"+", "-", "*", "/", "//", "%", "^", "..", "<", "<=", ">", ">=", "==", "~=", "and", "or", "&", "|", "~", "<<", ">>"}
 var unops = []string{"-", "not", "#", "~"}
 
@@ -373,7 +375,7 @@ func (g *luaGen) exp(budget int) {
 // valid expressions in which an operator directly follows a numeral
 var gluedArith = []string{"0xe+1", "0xAE-1", "0xfe+1", "0xE-0xe", "0xep-1", "0xEP+2", "1e+5", "1E-3+1", "0x1p+4", "0x.8p1-1", "3-2", "1e5+1", "7//2", "2^-1", "0xee-0xe", "1e1-1e1"}
 
-var sepChoices = []string{" ", " ", " ", " ", "\n", "\n", "\t", "\r\n", "  ", " --c\n", " --[[x]] ", "\n-- line\n", " --[==[ a\nb ]==] ", "\r"}
+var sepChoices = []string{" ", " ", " ", " ", "\n", "\n", "\t", "\r\n", "  ", " --c\n", " --[[x]] ", "\n-- line\n", " --[==[ a\nb ]==] ", "\r", " --[[ c\rd ]] ", " --[=[ e\r\nf\n\rg ]=] "}
 
 // render joins tokens with random white space / comments / line ends.
 func renderTokens(r *lib.Rng, toks []string) string {
